@@ -9,6 +9,7 @@
 package main
 
 import (
+	"encoding/hex"
 	"context"
 	"encoding/json"
 	"fmt"
@@ -44,6 +45,48 @@ type lkCase struct {
 	Content  []item   `json:"content"`
 	Prefixes []string `json:"prefixes"`
 	Reuse    bool     `json:"reuse"`
+	// letter -> byte (hex) used for keys, children of the listing and prefixes on the wire; nil: the letters themselves
+	Alphabet map[string]string `json:"alphabet"`
+}
+
+// conc turns an abstract key (letters) into the bytes stored; abs is its inverse for keys that come back
+func conc(alpha map[string]string, k string) []byte {
+	if len(alpha) == 0 {
+		return []byte(k)
+	}
+	out := []byte{}
+	for _, ch := range k {
+		h, ok := alpha[string(ch)]
+		if !ok {
+			panic("letter outside the alphabet: " + string(ch))
+		}
+		b, err := hex.DecodeString(h)
+		if err != nil {
+			panic(err)
+		}
+		out = append(out, b...)
+	}
+	return out
+}
+
+func abs(alpha map[string]string, k []byte) string {
+	if len(alpha) == 0 {
+		return string(k)
+	}
+	out := ""
+	for _, b := range k {
+		found := false
+		for l, h := range alpha {
+			if h == hex.EncodeToString([]byte{b}) {
+				out += l
+				found = true
+			}
+		}
+		if !found {
+			return "?" + hex.EncodeToString(k)
+		}
+	}
+	return out
 }
 
 type nodeReg struct {
@@ -240,15 +283,15 @@ func runCase(i int, c lkCase) map[string]any {
 		var err error
 		switch o.kind {
 		case "SIMPLE":
-			err = n.Put(ctx, []byte(o.key), []byte("v-"+o.key)) // never the empty value (known finding of C16)
+			err = n.Put(ctx, conc(c.Alphabet, o.key), []byte("v-"+o.key)) // never the empty value (known finding of C16)
 			s.simple = err == nil
 		case "PREFIX":
-			err = n.PrefixAppend(ctx, []byte(o.key), []byte(o.child))
+			err = n.PrefixAppend(ctx, conc(c.Alphabet, o.key), []byte(o.child))
 			if err == nil {
 				s.children = append(s.children, o.child)
 			}
 		case "LEASE":
-			s.token, err = n.Acquire(ctx, []byte(o.key), time.Hour)
+			s.token, err = n.Acquire(ctx, conc(c.Alphabet, o.key), time.Hour)
 		}
 		storeLog = append(storeLog, []any{o.key, o.kind, o.child, at, ring.ErrClass(err)})
 	}
@@ -262,7 +305,7 @@ func runCase(i int, c lkCase) map[string]any {
 			place[k] = append(place[k], []string{"error", err.Error()})
 		}
 		for _, kc := range ks {
-			place[k] = append(place[k], []string{string(kc.GetKey()), kc.GetType().String()})
+			place[k] = append(place[k], []string{abs(c.Alphabet, kc.GetKey()), kc.GetType().String()})
 		}
 		sort.Slice(place[k], func(a, b int) bool { return place[k][a][0]+"\x00"+place[k][a][1] < place[k][b][0]+"\x00"+place[k][b][1] })
 	}
@@ -271,10 +314,10 @@ func runCase(i int, c lkCase) map[string]any {
 	var lists [][]any
 	for k, n := range l.byIdx {
 		for pi, p := range c.Prefixes {
-			ks, err := n.ListKeys(ctx, []byte(p))
+			ks, err := n.ListKeys(ctx, conc(c.Alphabet, p))
 			got := [][]string{}
 			for _, kc := range ks {
-				got = append(got, []string{string(kc.GetKey()), kc.GetType().String()})
+				got = append(got, []string{abs(c.Alphabet, kc.GetKey()), kc.GetType().String()})
 			}
 			sort.Slice(got, func(a, b int) bool { return got[a][0]+"\x00"+got[a][1] < got[b][0]+"\x00"+got[b][1] })
 			lists = append(lists, []any{k, pi, got, ring.ErrClass(err)})
@@ -286,17 +329,17 @@ func runCase(i int, c lkCase) map[string]any {
 	for _, s := range st {
 		_, n := pick()
 		if s.simple {
-			if err := n.Delete(ctx, []byte(s.key)); err != nil {
+			if err := n.Delete(ctx, conc(c.Alphabet, s.key)); err != nil {
 				clean = false
 			}
 		}
 		for _, ch := range s.children {
-			if err := n.PrefixRemove(ctx, []byte(s.key), []byte(ch)); err != nil {
+			if err := n.PrefixRemove(ctx, conc(c.Alphabet, s.key), []byte(ch)); err != nil {
 				clean = false
 			}
 		}
 		if s.token != 0 {
-			if err := n.Release(ctx, []byte(s.key), s.token); err != nil {
+			if err := n.Release(ctx, conc(c.Alphabet, s.key), s.token); err != nil {
 				clean = false
 			}
 		}
@@ -337,10 +380,14 @@ func main() {
 	verifhook.AtFn = sched.At
 	if len(os.Args) > 1 && os.Args[1] == "hash" { // the identifiers of the keys, so that the check can place node ids around them
 		verifkit.EachCase(func(i int, raw json.RawMessage) {
-			keys := verifkit.Decode[[]string](raw)
+			in := verifkit.Decode[struct {
+				Keys     []string          `json:"keys"`
+				Alphabet map[string]string `json:"alphabet"`
+			}](raw)
+			keys := in.Keys
 			hs := make([]string, len(keys))
 			for k, key := range keys {
-				hs[k] = strconv.FormatUint(chord.Hash([]byte(key)), 10)
+				hs[k] = strconv.FormatUint(chord.Hash(conc(in.Alphabet, key)), 10)
 			}
 			verifkit.Answer(i, hs)
 		})
